@@ -19,6 +19,11 @@ REPO = os.environ.get("VERIF_REPO", "/repo")
 if sys.path[0] != REPO:
     sys.path.insert(0, REPO)
 
+import logging  # noqa: E402
+
+# failing nodes of the controlled runs leave asyncio tasks whose exception nobody retrieves: keep stderr readable
+logging.getLogger("asyncio").setLevel(logging.CRITICAL)
+
 import tawazi  # noqa: E402
 from tawazi._dag import helpers as H  # noqa: E402
 from tawazi._helpers import StrictDict  # noqa: E402
